@@ -15,6 +15,10 @@ import math, random, itertools, json, os
 import numpy as np
 from harness.core import import_cuqi, quiet, q, qv, close
 
+# float log-densities of the implementation vs the exact sum of the same leaf floats: observed error <= 4e-16 relative;
+# 1e-12 keeps a change of a hyper-parameter by a relative 2^-17 (dim/2 * 7.6e-6 in the log-density) clearly visible
+TOL = 1e-12
+
 NAME_POOL = ["x", "y", "z", "u", "w", "s", "d", "t", "a", "b", "theta", "lam", "y_obs", "x1", "x2", "v", "p", "r"]
 UNKNOWN = "zz_unknown"
 
@@ -183,6 +187,12 @@ def gen_graph(rng, thorough):
                 b = np.array([rng.randint(-4, 4) / 2.0 for _ in range(v.dim)])
         else:
             a, b = [np.array([float(x)]) for x in rng.sample([0.25, 0.5, 1.0, 2.0, 4.0], 2)]
+        # values that a tolerance-based "unchanged?" test (np.allclose / isclose) cannot tell apart (G4)
+        r = rng.random()
+        if r < 0.25:
+            b = a.copy(); j = rng.randrange(v.dim); b[j] = a[j] + 2.0 ** -17 * max(1.0, abs(a[j]))
+        elif r < 0.32 and v.kind == "pos":
+            a, b = np.array([1e-9]), np.array([2e-9])       # differ by less than allclose's atol
         v.vals = [a, b]
     # geometries: any variable that is not the input of a wrapped cuqi Model (whose domain geometry would have to match)
     model_inputs = {p for w in vs for sp in w.attrs.values() if sp.wrap for p in sp.parents}
@@ -297,6 +307,8 @@ class Program:
         self.fixed_forms = set()  # non-default representations of the values passed when fixing variables
         self.buffers = {}       # name -> writable ndarray the caller passed when fixing it
         self.scribbled = None   # class of the in-place overwrite done after a conditioning call
+        self.evalbuf = {}       # name / ("stack", n) -> the caller's state buffer used for evaluations
+        self.buf_reused = False
         self.outputs = []       # (returned object, float at return time, token)
         self.kept = []          # (earlier object, fixed at that time, free names)
 
@@ -352,12 +364,14 @@ class Program:
         """the value passed to the implementation; with vary=True sometimes in another representation of the same numbers"""
         x = v.vals[i]
         form = "default"
-        if vary and self.rng.random() < 0.3:
+        if vary and not getattr(self, "no_vary", False) and self.rng.random() < 0.3:
             integral = bool(np.all(x == np.round(x)))
             if v.dim > 1:
                 form = self.rng.choice(["list", "f32", "int" if integral else "list", "strided", "negstride", "readonly", "cuqiarray", "tuple"])
             else:
                 form = self.rng.choice(["int" if integral else "npfloat", "npfloat", "f32", "0d", "1elem"])
+        if form == "f32" and not np.array_equal(x.astype(np.float32).astype(float), x):
+            form = "default"            # the same numbers only
         self.forms_used.add(form)
         if v.dim > 1:
             if form == "list":
@@ -463,16 +477,37 @@ class Program:
             self.obj_ = new
         return ok
 
-    def call_logd(self, pos, kw, mode, what, assign=None, raw_pos=None):
+    def _buf(self, key, value):
+        """the caller's persistent state buffer for `key`, updated IN PLACE to `value` (same ndarray object every time)"""
+        value = np.asarray(value, dtype=float).reshape(-1)
+        b = self.evalbuf.get(key)
+        if b is None or b.shape != value.shape:
+            b = self.evalbuf[key] = np.zeros(value.shape)
+        else:
+            self.buf_reused = True
+        b[...] = value
+        return b
+
+    def call_logd(self, pos, kw, mode, what, assign=None, raw_pos=None, reuse=None):
         obj = self.obj_
         kb = kind_of(self.cuqi, obj)
         vary = what == "valid"
+        if reuse is None:
+            reuse = what == "valid" and self.rng.random() < 0.3
         self.forms_used = set()
-        if raw_pos is not None:
-            pargs = raw_pos
+        self.buf_reused = False
+        if reuse:
+            # Gibbs / MCMC style caller: one state array per variable (one state vector for the stacked view) that is
+            # overwritten in place between successive evaluations and passed again as the same object
+            pargs = ([self._buf(("stack", len(v)), v) for v in raw_pos] if raw_pos is not None else
+                     [self._buf(n, self.byname[n].vals[i]) if n in self.byname else 1.0 for n, i in pos])
+            kwargs = {k: (self._buf(k, self.byname[k].vals[i]) if k in self.byname else 1.0) for k, i in kw}
         else:
-            pargs = [self._arg(self.byname[n], i, vary) if n in self.byname else 1.0 for n, i in pos]
-        kwargs = {k: (self._arg(self.byname[k], i, vary) if k in self.byname else 1.0) for k, i in kw}
+            if raw_pos is not None:
+                pargs = raw_pos
+            else:
+                pargs = [self._arg(self.byname[n], i, vary) if n in self.byname else 1.0 for n, i in pos]
+            kwargs = {k: (self._arg(self.byname[k], i, vary) if k in self.byname else 1.0) for k, i in kw}
         forms = sorted(self.forms_used - {"default"})
         fv = getattr(self, "_foreign_value", None)
         if fv is not None and fv[0] in kwargs:
@@ -498,8 +533,8 @@ class Program:
         if what == "valid":
             full = dict(self.fixed); full.update(assign)
             want = self.total(full)
-            if not (isinstance(rec, tuple) and isinstance(rec[1], float) and close(rec[1], want, 1e-9)):
-                key = f"logd:{kb}:{mode}:" + ("raises" if isinstance(rec, str) else "value") + self._formsuffix(forms)
+            if not (isinstance(rec, tuple) and isinstance(rec[1], float) and close(rec[1], want, TOL)):
+                key = f"logd:{kb}:{mode}:" + ("raises" if isinstance(rec, str) else "value") + self._formsuffix(forms) + (":samebuffer" if self.buf_reused else "")
                 if self.scribbled and not isinstance(rec, str):
                     # the caller overwrote (in place) an array it had passed when fixing a variable: the object must
                     # still stand for the values it was given
@@ -776,7 +811,7 @@ class Program:
         self._record(token, rec, {"op": "problem." + acc, "kind": kb, "mode": "positional" if pos else "keyword", "what": what})
         d = {**self.desc, "call": token, "record": len(self.impl) - 1, "fixed": dict(self.fixed)}
         if what == "valid":
-            if not (isinstance(rec, tuple) and isinstance(rec[1], float) and close(rec[1], want, 1e-9)):
+            if not (isinstance(rec, tuple) and isinstance(rec[1], float) and close(rec[1], want, TOL)):
                 self.fails.append((f"problem:{acc}:logd:" + ("raises" if isinstance(rec, str) else "value"), d, want,
                                    rec if isinstance(rec, str) else rec[1],
                                    f"problem.{acc}.logd is not the corresponding part of the joint log-density at the complete assignment"))
@@ -897,7 +932,7 @@ class Program:
                 got = float(np.asarray(got, dtype=float).reshape(-1)[0])
             except Exception as e:  # noqa
                 got = "err:" + type(e).__name__
-            if not (isinstance(got, float) and close(got, want, 1e-9)):
+            if not (isinstance(got, float) and close(got, want, TOL)):
                 self.fails.append((f"retained:object:{kb}:logd" + ((":raises" + self._formsuffix([])) if isinstance(got, str) else ""), {**self.desc, "fixed": fixed}, want, got,
                                    "an object obtained earlier no longer evaluates to its joint log-density after later conditioning calls on it"))
 
@@ -928,6 +963,7 @@ def corpus(cuqi):
     out = []
     def prog(idx, script):
         p = Program(cuqi, random.Random(f"C01-corpus-{idx}"), False, f"corpus-{idx}")
+        p.no_vary = True            # corpus programs: plain float64 arrays / python floats only
         p.setup(docstring_graph())
         if p.construct():
             script(p)
@@ -968,7 +1004,96 @@ def corpus(cuqi):
         p.call_logd([], [], "keyword", "valid", {})
     for i, sc in enumerate([s0, s1, s2, s3]):
         prog(i, sc)
+    # --- the same array objects passed to successive evaluations and updated in place in between
+    def s4(p):   # Posterior
+        p.call_cond([], [("y", 0), ("z", 0), ("s", 0)], "keyword", "valid")
+        for i, kwmode in [(0, False), (1, False), (0, True), (1, True), (0, False)]:
+            if kwmode:
+                p.call_logd([], [("x", i)], "keyword", "valid", {"x": i}, reuse=True)
+            else:
+                p.call_logd([("x", i)], [], "positional", "valid", {"x": i}, reuse=True)
+    def s5(p):   # conditioned joint (likelihood y | x, s still has two parameters)
+        p.call_cond([], [("y", 0)], "keyword", "valid")
+        for a, mode in [((0, 0, 0), "keyword"), ((1, 0, 0), "keyword"), ((1, 0, 1), "keyword"), ((0, 1, 1), "positional"),
+                        ((1, 1, 1), "positional"), ((1, 1, 0), "mixed"), ((0, 1, 0), "mixed")]:
+            asg = dict(zip("xzs", a))
+            if mode == "keyword":
+                p.call_logd([], [(n, asg[n]) for n in "szx"], mode, "valid", asg, reuse=True)
+            elif mode == "positional":
+                p.call_logd([(n, asg[n]) for n in "xzs"], [], mode, "valid", asg, reuse=True)
+            else:
+                p.call_logd([("x", asg["x"])], [("s", asg["s"]), ("z", asg["z"])], mode, "valid", asg, reuse=True)
+    def s6(p):   # stacked view: one state vector
+        p.call_cond([], [("y", 0)], "keyword", "valid")
+        p.call_simple("S", lambda o: o._as_stacked(), "valid")
+        for a in [(0, 0, 0), (1, 0, 0), (1, 1, 0), (0, 1, 0), (0, 1, 1), (0, 0, 0)]:
+            asg = dict(zip("xzs", a))
+            v = np.concatenate([p.byname[n].vals[asg[n]] for n in "xzs"])
+            p.call_logd([], [], "stacked", "valid", asg, raw_pos=[v], reuse=True)
+    for i, sc in enumerate([s4, s5, s6]):
+        prog(4 + i, sc)
+    def s7(p):   # MultipleLikelihoodPosterior, and its stacked view
+        p.call_cond([], [("y1", 0), ("y2", 0)], "keyword", "valid")
+        for i, kwmode in [(0, True), (1, True), (0, False), (1, False), (0, True)]:
+            if kwmode:
+                p.call_logd([], [("x", i)], "keyword", "valid", {"x": i}, reuse=True)
+            else:
+                p.call_logd([("x", i)], [], "positional", "valid", {"x": i}, reuse=True)
+        p.call_simple("S", lambda o: o._as_stacked(), "valid")
+        for i in (0, 1, 0):
+            p.call_logd([], [], "stacked", "valid", {"x": i}, raw_pos=[p.byname["x"].vals[i].copy()], reuse=True)
+    # --- successive evaluations that differ only by a hyper-parameter change below np.allclose's tolerances
+    def near_graph():
+        g = docstring_graph()
+        g[2].vals = [np.array([2.0]), np.array([2.0 * (1 + 2.0 ** -17)])]     # z: relative change 7.6e-6
+        g[3].vals = [np.array([1e-9]), np.array([2e-9])]                       # s: absolute change 1e-9
+        return g
+    def s8(p):   # the unconditioned joint, then the joint conditioned on the data, then its stacked view
+        seq = [(0, 0), (1, 0), (1, 1), (0, 1), (0, 0)]
+        for zi, si in seq:
+            asg = {"y": 0, "x": 0, "z": zi, "s": si}
+            p.call_logd([], [(n, asg[n]) for n in "yxzs"], "keyword", "valid", asg, reuse=False)
+        p.call_cond([], [("y", 0)], "keyword", "valid")
+        for k, (zi, si) in enumerate(seq):
+            asg = {"x": k % 2, "z": zi, "s": si}
+            if k % 2:
+                p.call_logd([(n, asg[n]) for n in "xzs"], [], "positional", "valid", asg, reuse=False)
+            else:
+                p.call_logd([], [(n, asg[n]) for n in "zsx"], "keyword", "valid", asg, reuse=False)
+        p.call_simple("S", lambda o: o._as_stacked(), "valid")
+        for zi, si in seq:
+            asg = {"x": 0, "z": zi, "s": si}
+            p.call_logd([], [], "stacked", "valid", asg, raw_pos=[np.concatenate([p.byname[n].vals[asg[n]] for n in "xzs"])], reuse=False)
+    pn = Program(cuqi, random.Random("C01-corpus-8"), False, "corpus-8")
+    pn.no_vary = True
+    pn.setup(near_graph())
+    if pn.construct():
+        s8(pn)
+    out.append(pn)
+    pm = Program(cuqi, random.Random("C01-corpus-7"), False, "corpus-7")
+    pm.no_vary = True
+    pm.setup(multi_graph())
+    if pm.construct():
+        s7(pm)
+    out.append(pm)
     return out
+
+
+def multi_graph():
+    """y1 | x ; y2 | x ; x   (two data sets over one parameter -> MultipleLikelihoodPosterior)"""
+    A = np.array([[1., 2., 0.], [0., 1., 1.]])
+    B = np.array([[1., 0., 1.], [2., 1., 0.], [0., 1., 1.]])
+    y1, y2, x = Var("y1", 2, "vec"), Var("y2", 3, "vec"), Var("x", 3, "vec")
+    y1.family = "Gaussian"
+    y1.attrs = {"mean": Spec(["x"], lambda x: A @ np.asarray(x, dtype=float)), "cov": Spec([], lambda: 2.0)}
+    y2.family = "Laplace"
+    y2.attrs = {"location": Spec(["x"], lambda x: B @ np.asarray(x, dtype=float)), "scale": Spec([], lambda: 0.5)}
+    x.family = "Gaussian"
+    x.attrs = {"mean": Spec([], lambda: np.zeros(3)), "cov": Spec([], lambda: 4.0)}
+    y1.vals = [np.array([1., 2.]), np.array([0., 1.])]
+    y2.vals = [np.array([1., 0., -1.]), np.array([2., 2., 0.])]
+    x.vals = [np.array([.5, -1., 2.]), np.array([1., 1., 0.])]
+    return [y1, y2, x]
 
 
 def compare(model_rec, impl_rec):
@@ -981,7 +1106,7 @@ def compare(model_rec, impl_rec):
         if not isinstance(impl_rec[1], float):
             return "implementation returns a non-scalar"
         from fractions import Fraction
-        return None if close(impl_rec[1], float(Fraction(model_rec[4:])), 1e-9) else "values differ"
+        return None if close(impl_rec[1], float(Fraction(model_rec[4:])), TOL) else "values differ"
     if impl_rec.startswith("err:"):
         return None if model_rec.startswith("err:") else "implementation raises, model does not"
     if model_rec.startswith("err:") or model_rec.startswith("val:"):
@@ -1040,7 +1165,7 @@ def run(ctx):
     ctx.assumptions += ["every distribution is given an explicit name (no stack-based name inference); the Posterior created by the reduction has no name until one is set",
                         "variable names differ from attribute names of the distribution families and from 'args'/'kwargs'/'_main_parameter'",
                         "geometries of prior and forward model are consistent (default geometries)",
-                        "float log-densities compared with the model's exact sum at rel+abs 1e-9"]
+                        "float log-densities compared with the model's exact sum at rel+abs 1e-12 (largest error observed on the unchanged tree: 4e-16)"]
     errclass, nmiss = run_programs(ctx, cuqi, range(nprog), thorough)
     ctx.extra_cov["error_class_differences(model|impl)"] = errclass
     ctx.extra_cov["model_leaf_outside_table"] = nmiss
